@@ -2,6 +2,7 @@ package harness
 
 import (
 	"time"
+	_ "time/tzdata" // named zones must not depend on the host
 
 	saml2 "github.com/russellhaering/gosaml2"
 	dsig "github.com/russellhaering/goxmldsig"
@@ -46,9 +47,10 @@ type SPConfig struct {
 	Enc       KeyCfg    `json:"enc"`
 	Sig       KeyCfg    `json:"sig"`
 
-	NowUnixNano int64 `json:"now"`
-	NowOffset   int   `json:"nowOffsetMin"` // zone the fake clock reports in
-	NilClock    bool  `json:"nilClock,omitempty"`
+	NowUnixNano int64  `json:"now"`
+	NowOffset   int    `json:"nowOffsetMin"`      // zone the fake clock reports in
+	NowZone     string `json:"nowZone,omitempty"` // IANA zone name (DST-observing zones); overrides NowOffset
+	NilClock    bool   `json:"nilClock,omitempty"`
 
 	MaxSize         int64 `json:"maxSize"`
 	ValidateEncCert bool  `json:"validateEncCert"`
@@ -70,6 +72,11 @@ type RAC struct {
 
 func (c SPConfig) Now() time.Time {
 	t := time.Unix(0, c.NowUnixNano).UTC()
+	if c.NowZone != "" {
+		if loc, err := time.LoadLocation(c.NowZone); err == nil {
+			return t.In(loc)
+		}
+	}
 	if c.NowOffset != 0 {
 		t = t.In(time.FixedZone("", c.NowOffset*60))
 	}
